@@ -32,7 +32,11 @@ HARNESSES = [
             bounds='one add of 8 symbolic bytes, then the pool\'s own lookup (Tree::get) for both 4-byte halves and for 4 arbitrary bytes'),
 ] + [
     Harness('poolm', 'h_poolm_' + nm, unwind=5, unwindset=MLONG + ''.join(',h_poolm_%s.%d:9' % (nm, i) for i in range(12)), mem_gb=mem, timeout=1800, flags=FS, tiers=tiers, bounds=BM % (nm.replace('_', ','), fill))
-    for nm, fill, mem, tiers in (('8_8_4', 'no fill()', 2, Q), ('1_4_1_1_1', 'then fill()', 8, Q), ('4_4_4_4', 'then fill()', 8, Q), ('4_8_4', 'then fill()', 6, T), ('1_8_1', 'then fill()', 4, Q))
+    for nm, fill, mem, tiers in (('8_8_4', 'no fill()', 2, Q), ('1_4_1_1_1', 'then fill()', 8, Q), ('4_4_4_4', 'then fill()', 8, Q), ('4_8_4', 'then fill()', 6, T), ('1_8_1', 'then fill()', 6, Q))
+] + [
+    # tree of 4-byte constants receives up to 7 nodes (4 quarters, 2 halves of the 8-byte one, the last add): deeper walk bounds
+    Harness('poolm', 'h_poolm_16_8_4', unwind=9, unwindset=MLONG.replace('EPh.', 'EPh.').replace(':8', ':10') + ''.join(',h_poolm_16_8_4.%d:9' % i for i in range(12)), mem_gb=8, timeout=2400, flags=FS, tiers=T,
+            bounds=BM % ('16,8,4', 'then fill()')),
 ]
 EXPLANATION = 'bounded symbolic execution (CBMC) of the real ConstPool::add / fill compiled from /repo; offsets and the written image are compared with a list of the constants kept by the harness'
 OUTSIDE = ['measured and dropped (out of memory at the 8 GB cap of one query after 30..280 s): size sequences 8,4 / 4,8 / 8,8 / 1,8,1 / 4,4,4 / 4,8,4 / 16,8,4, i.e. every scenario in which a tree of the pool receives a third node or a node is added next to two shared ones; sharing is therefore checked by lookup after one 8-byte add (h_pool_8_lookup), not through a second add', 'fill() of pools whose trees hold more than one node of a size class (tree walks through the tagged links exhaust the memory cap)', 'size sequences other than the ones listed per harness (sizes are constants per harness: with symbolic sizes the solver reaches no verdict)', 'constants of 32 and 64 bytes (a 64-byte constant registers 30 shared sub-constants: beyond the memory cap of one query)', 'more than 3 adds', 'pools that are not empty at the start']
